@@ -93,7 +93,9 @@ func (n *Node) CheckNode() *Failure {
 			bestID, bestQ, bestScore, first = id, sc.Q, score, false
 		}
 	}
-	if got := n.Repo.BestBlockSummary().Header.ID(); got != bestID {
+	// before the FINALITY fork the node compares by BetterThan alone (block_exec.go), so "maximum of (quality, score, id)"
+	// is the claim for FINALITY = 0 only
+	if got := n.Repo.BestBlockSummary().Header.ID(); got != bestID && n.Sim.Cfg.F == 0 {
 		return &Failure{"best-not-max-of-order", fmt.Sprintf("best block %s is not the maximum %s of (quality, total score, smaller id) over the %d stored blocks",
 			got.String()[:14], bestID.String()[:14], len(stored))}
 	}
@@ -123,6 +125,16 @@ func (r *Run) CheckRun(sc *Script, safety bool) *Failure {
 			return &Failure{fmt.Sprintf("commitblock-error-on-accepted-block:%d", o.Code-CodeCommitErr),
 				fmt.Sprintf("op %d (%s node %d): CommitBlock failed (class %d) on a block whose parent the engine accepts", i, op.Kind, op.Node, o.Code-CodeCommitErr)}
 		}
+		// "finalized / justified CHECKPOINT": both are first blocks of an epoch (whatever the FINALITY fork height is: the
+		// search for them starts at getCheckPoint(FINALITY))
+		if num := block.Number(o.Finalized); num%r.Sim.Cfg.L != 0 {
+			return &Failure{"finalized-not-at-checkpoint", fmt.Sprintf("op %d: node %d reports finalized #%d, not the first block of an epoch (epoch length %d, FINALITY %d)",
+				i, op.Node, num, r.Sim.Cfg.L, r.Sim.Cfg.F)}
+		}
+		if num := block.Number(o.Justified); o.JustErr == "" && num%r.Sim.Cfg.L != 0 {
+			return &Failure{"justified-not-at-checkpoint", fmt.Sprintf("op %d: node %d reports justified #%d, not the first block of an epoch (epoch length %d, FINALITY %d)",
+				i, op.Node, num, r.Sim.Cfg.L, r.Sim.Cfg.F)}
+		}
 		if prev, ok := lastFin[op.Node]; ok && prev != o.Finalized && !r.Sim.Ancestor(prev, o.Finalized) && (safety || op.Kind != "propose") {
 			return &Failure{"finalized-not-monotone", fmt.Sprintf("op %d: node %d finalized moved from #%d to #%d which does not descend from it",
 				i, op.Node, block.Number(prev), block.Number(o.Finalized))}
@@ -149,6 +161,9 @@ func (r *Run) CheckRun(sc *Script, safety bool) *Failure {
 // already held a justified epoch when the epoch began it is also committed, and importing its last block moved
 // finalized to the checkpoint of the previous justified epoch.
 func (r *Run) CheckLiveness() *Failure {
+	if r.Sim.Cfg.F != 0 {
+		return nil // epochs before / around the fork height are not counted by the engine: the theorem is for FINALITY = 0
+	}
 	n := r.Nodes[0]
 	L := r.Sim.Cfg.L
 	best := n.Repo.BestBlockSummary().Header
